@@ -198,6 +198,14 @@ var ruleScopeS1 = &Rule{
 			case "followed":
 				bad = mustFollow(f, isA, isB)
 			}
+			if len(bad) > 0 && r.kind == "never-after" && r.a == "AddLocVar" && r.b == "cgExp" && storesLoopHead(f) {
+				// since the repair of the loop-header visibility (SCOPE/S10) a control variable that is declared early is
+				// still invisible to the header expressions: it carries the range of its loop's header, and every lookup
+				// (the analysis' own too) asks IsCorrectPosition. The order is no longer a necessary condition here.
+				obs = append(obs, Ob{Key: key, Site: c.Pos(f.Pos()), Verdict: OK,
+					Note: "the control variables are declared before the header expressions are analysed, but they carry the loop's header range (SCOPE/S10), so the header does not see them"})
+				continue
+			}
 			if len(bad) > 0 {
 				obs = append(obs, Ob{Key: key, Site: c.Pos(bad[0].Pos()), Verdict: VIOLATION,
 					Note: fmt.Sprintf("ordering '%s %s %s' violated on some path: %s", r.a, map[string]string{"before": "must precede", "never-after": "must never be followed by", "followed": "must be followed by"}[r.kind], r.b, r.why)})
@@ -669,4 +677,18 @@ var ruleComplDeclBefore = &Rule{
 		obs = append(obs, floor("COMPL/declared-before-cursor", "local completion inserts with a cursor parameter", n, 1))
 		return obs
 	},
+}
+
+// storesLoopHead: f stores VarInfo.LoopHeadLoc (the declared loop variables know where their loop's header is)
+func storesLoopHead(f *ssa.Function) bool {
+	for _, b := range f.Blocks {
+		for _, ins := range b.Instrs {
+			if st, ok := ins.(*ssa.Store); ok {
+				if fa, ok := st.Addr.(*ssa.FieldAddr); ok && fieldName(fa.X.Type(), fa.Field) == "LoopHeadLoc" {
+					return true
+				}
+			}
+		}
+	}
+	return false
 }
